@@ -174,7 +174,9 @@ Print Assumptions C14_store_chunk_roundtrip.
 (* ---------- indexes over HTTP ---------- *)
 
 (* GET: the index that is in the file (as decoded by the server) arrives unchanged; a name
-   without a file is reported missing; a directory or an undecodable file is an error *)
+   without a file is reported missing; a directory, an entry that cannot be opened for another
+   reason than "does not exist" (DErr: symlink loop, permission, I/O error) or an undecodable
+   file is an error -- never "missing" *)
 Theorem C14_index_get : forall (index_t : Type) (idx_decode : bytes -> option index_t) idx_encode,
   (forall ix, idx_decode (idx_encode ix) = Some ix) ->
   forall budget c d n auth,
@@ -182,18 +184,20 @@ Theorem C14_index_get : forall (index_t : Type) (idx_decode : bytes -> option in
   remote_get_index index_t idx_decode idx_encode budget auth c d n =
   match dlookup n d with
   | None => (IMissing, 1)
-  | Some DDir => (IErr, 1)
+  | Some DDir | Some DErr => (IErr, 1)
   | Some (DFile b) => match idx_decode b with Some ix => (IData ix, 1) | None => (IErr, 1) end
   end.
 Proof. exact index_get. Qed.
 Print Assumptions C14_index_get.
 
 (* index_head_truthful (the code after "fix: HEAD on the index server ..."): HEAD answers 200
-   iff the served directory has an entry of that name *)
+   iff the served directory has an entry of that name that can be opened.  As the code stands an
+   entry that exists but cannot be opened (DErr) is answered 404 as well -- HEAD has no way to
+   say "failed"; GET (above) answers 400 for it.  Reported as a known finding. *)
 Theorem C14_index_head_truthful : forall (index_t : Type) (idx_decode : bytes -> option index_t) idx_encode budget c d n auth,
   plain_name n -> authorized c auth ->
   remote_has_index index_t idx_decode idx_encode budget auth c d n =
-  (match dlookup n d with Some _ => HasTrue | None => HasFalse end, 1).
+  (match dlookup n d with Some DErr => HasFalse | Some _ => HasTrue | None => HasFalse end, 1).
 Proof. exact index_head. Qed.
 Print Assumptions C14_index_head_truthful.
 
@@ -201,12 +205,41 @@ Theorem C14_index_put_get : forall (index_t : Type) (idx_decode : bytes -> optio
   (forall ix, idx_decode (idx_encode ix) = Some ix) ->
   forall budget c d n auth ix,
   plain_name n -> authorized c auth -> c_writable c = true -> c_store_writable c = true ->
-  dlookup n d <> Some DDir ->
+  dlookup n d <> Some DDir -> dlookup n d <> Some DErr ->
   exists d',
     remote_store_index index_t idx_decode idx_encode budget auth c d n ix = ((true, 1), d') /\
     remote_get_index index_t idx_decode idx_encode budget auth c d' n = (IData ix, 1).
 Proof. exact index_put_get. Qed.
 Print Assumptions C14_index_put_get.
+
+(* index server in front of a REMOTE index store: what the upstream delivers arrives, and an
+   upstream failure is never reported as "missing" ... *)
+Theorem C14_index_proxy : forall (index_t : Type) (idx_decode : bytes -> option index_t) idx_encode,
+  (forall ix, idx_decode (idx_encode ix) = Some ix) ->
+  forall budget budget_up rs_up,
+  proxied_get_index index_t idx_decode idx_encode budget budget_up rs_up =
+  match fst (get_index index_t idx_decode budget_up rs_up) with
+  | IData ix => (IData ix, 1)
+  | IMissing => (IErr, 1)
+  | IErr => (IErr, 1)
+  end.
+Proof. exact proxied_index. Qed.
+Print Assumptions C14_index_proxy.
+
+(* ... but, as the code stands, an index that is MISSING upstream reaches the client as an error
+   too (HTTPIndexHandler.get tests os.IsNotExist, which NoSuchObject does not satisfy): "a missing
+   object is reported as missing" is false for a proxied index store.  Known finding. *)
+Definition index_proxy_missing_statement : Prop :=
+  forall (index_t : Type) (idx_decode : bytes -> option index_t) (idx_encode : index_t -> bytes) budget budget_up rs_up,
+    fst (get_index index_t idx_decode budget_up rs_up) = IMissing ->
+    fst (proxied_get_index index_t idx_decode idx_encode budget budget_up rs_up) = IMissing.
+
+Theorem C14_index_proxy_missing_refuted : ~ index_proxy_missing_statement.
+Proof.
+  intros St. specialize (St bytes (fun b => Some b) (fun b => b) 1 1 (fun _ => Status 404 [])).
+  vm_compute in St. specialize (St eq_refl). discriminate.
+Qed.
+Print Assumptions C14_index_proxy_missing_refuted.
 
 (* ---------- casync protocol ---------- *)
 
@@ -227,6 +260,17 @@ Theorem C14_session_truthful : forall H zcomp zdecomp,
   Forall2 (answered H zcomp zdecomp store data_of) ids (session H zcomp zdecomp store ids).
 Proof. exact session_truthful. Qed.
 Print Assumptions C14_session_truthful.
+
+(* the same with the LocalStore behind `desync pull`, in either on-disk format (compressed like
+   casync's, or uncompressed) and with or without verification on read *)
+Theorem C14_session_over_local_store : forall H zcomp zdecomp,
+  (forall x, zdecomp (zcomp x) = Some x) -> (forall x, zcomp x <> []) ->
+  forall (s : lstore) data_of ids,
+  Forall (held H zcomp s data_of) ids ->
+  Forall2 (answered H zcomp zdecomp (local_get H zdecomp s) data_of) ids
+          (session H zcomp zdecomp (local_get H zdecomp s) ids).
+Proof. exact session_over_local_store. Qed.
+Print Assumptions C14_session_over_local_store.
 
 (* ... until a store FAILURE ends the session: the failing request and every later one are
    reported as errors (never as missing, never as data) *)
